@@ -7,6 +7,17 @@ import Vata.Proofs.MtbddOps
 import Vata.Proofs.Sanitize
 import Vata.Proofs.IsectBU
 import Vata.Proofs.StoreRefine
+import Vata.Properties.C08_Isect
+import Vata.Properties.C11_Extended
+import Vata.Properties.C12_Iterators
+import Vata.Properties.CacheWiring
+import Vata.Properties.Util_Cache
+import Vata.Properties.Util_Antichain
+import Vata.Properties.Util_OrdVector
+import Vata.Properties.Util_LtsUtil
+import Vata.Properties.Util_BinRel
+import Vata.Properties.Util_CliArgs
+import Vata.Properties.Util_Glue
 /-!
 # C20 – Operations on well-formed automata have no memory errors or undefined behaviour
 
@@ -40,7 +51,15 @@ errors in the corresponding component, proved for the model of that component ov
 * `sanitize` (`Vata/Sanitize.lean`): `SanitizeAutsForInclusion`, whose returned counter dimensions the dense, state-indexed
   tables of the inclusion algorithms (C01);
 * `M.*` (`Vata/MtbddOps.lean`): the MTBDD operations on trees (C17); `RcS.unfold` (`Vata/Proofs/StoreRefine.lean`): the
-  diagram below a node of the store.
+  diagram below a node of the store;
+* added since (last section of this file, and the topic files it cites): the iterator state machines of the rule container
+  (`Vata/StoreIter.lean`), the extended copy-on-write heap with moves and sharing results (`Vata/CowHeapX.lean`), the
+  product-state counters of the two BDD intersections (`Vata/BddIsect.lean`), and the UTILITY CLASSES modelled as coded, each
+  checked against the real class by operation histories – the macro-state cache with its address-keyed memo tables
+  (`Vata/CacheModel.lean`), the antichain containers (`Vata/Antichain.lean`), `OrdVector` (`Vata/OrdVector.lean`),
+  `BinaryRelation` (`Vata/BinRel.lean`), the allocators, shared counters, shared lists and the splitting relation of the
+  simulation engine (`Vata/LtsUtil.lean`), the dictionary / translator / symbolic-assignment glue (`Vata/Glue.lean`), and the
+  command-line parser (`Vata/CliArgs.lean`).
 
 In all of them the "specification" side is the invariant itself (`RcS.indeg`/`handlesTo`/`Reach`, `CowHeap.Inv`,
 `CowHeap3.Inv`, `Store.Inv`, `InjOn`, `M.WF`); the "model of the code" side is the history semantics
@@ -132,9 +151,9 @@ example : Store.invB ⟨[(1, [])], []⟩ = false ∧ Store.invB ⟨[(1, [(7, [])
 /-- PARTIAL (the product-state counter of the explicit `Intersection`): whenever the model returns a product, its
 translation map is injective on its domain – each discovered pair of states got its own fresh number
 (`pTranslMap->size()` at the time of insertion), no two pairs share a state of the product.  This is the model-level
-content of "the product-state counter is initialised and advanced correctly" for the *explicit* encoding only; the
+content of "the product-state counter is initialised and advanced correctly" for the *explicit* encoding; for the
 BDD-encoded intersections (`bdd_bu_tree_aut_isect.cc`, `bdd_td_tree_aut_isect.cc`), where the anchor of the property
-locates an uninitialised counter, have no Lean model -/
+locates an uninitialised counter, see `C20_bdd_isect_numbers_dense_partial` in `Vata/Properties/C08_Isect.lean` -/
 theorem C20_product_map_injective_partial (A B : TA) (fuel : Nat) (P : TA) (m : PMap)
     (h : isectTD A B fuel = some (P, m)) :
     ∀ x, x ∈ m.dom → ∀ y, y ∈ m.dom → lookupF m x = lookupF m y → x = y := isectTD_map_inj h
@@ -205,27 +224,154 @@ example : M.WF M.OpsEx.exA ∧ M.WF M.OpsEx.exB ∧ M.WF M.OpsEx.exC :=
   ⟨M.OpsEx.exA_wf, M.OpsEx.exB_wf, M.OpsEx.exC_wf⟩
 example : M.OpsEx.exA = .node 2 (.node 0 (.leaf 0) (.leaf 5)) (.leaf 0) := by decide
 
+/-! ### the utility classes: reference counts, free lists, stale addresses, bounds, iterators
+
+Collected from `Vata/Properties/Util_*.lean`, `CacheWiring.lean`, `C12_Iterators.lean`, `C08_Isect.lean`, `C11_Extended.lean`: the
+model-level content of the clauses of C20 for the components that had "not even a bookkeeping invariant" when this file was
+written.  As everywhere in this file: theorems about models of the classes as coded (here with explicit addresses, cells and
+free lists), tied to the real classes by the correspondence checks, not proofs about the compiled C++. -/
+
+/-- PARTIAL ("never frees memory twice", "no node released while referred to", for the manual memory management inside the
+LTS simulation engine).  `SharedCounter` rows from the `CachingArrayAllocator`: after every history inside the engine's call
+discipline the free list holds no row twice and no row that a live counter points to.  `SharedList` nodes and vectors:
+the two free lists hold nothing twice, no node that is on a chain and no vector of such a node.  `CachingAllocator`: an
+allocation never hands out a live object.  (Reference count = number of sharers, and copy-on-write of `decr`:
+`Util_LtsUtil_SharedCounter_refcount`, `Util_LtsUtil_SharedCounter_copy_on_write`, `Util_LtsUtil_SharedList_refcount`.) -/
+theorem C20_engine_helpers_bookkeeping_partial :
+    (∀ {cfg : LU.SC.Cfg} (ops : List LU.SC.Op), LU.SC.okAll cfg [] ops = true →
+      ∃ w', LU.SC.run cfg LU.SC.World.empty ops = some (w', (LU.SC.aRun cfg [] ops).2) ∧ w'.mem.free.Nodup ∧
+        ∀ p, p ∈ w'.mem.free → ∀ (i : Nat) (c : LU.SC.Cnt) (r : Nat) (row : LU.SC.Row),
+          w'.cnt i = some c → c[r]? = some row → row.data ≠ some p) ∧
+    (∀ {n : Nat} {ops : List LU.SL.Op} {W : LU.SL.World} {outs : List (List Nat)},
+      LU.SL.okAll (LU.SL.A.mk0 n) ops = true → LU.SL.run (LU.SL.World.mk0 n) ops = some (W, outs) →
+      W.w.nfree.Nodup ∧ W.w.vfree.Nodup ∧
+        ∀ m, LU.SL.OnChain W m → m ∉ W.w.nfree ∧ ∃ v, (W.w.nodes.get m).sub = some v ∧ v ∉ W.w.vfree) ∧
+    (∀ (ops : List LU.CA.Op) {a : LU.CA.T} {live : LU.CA.A}, LU.CA.run LU.CA.mk [] ops = some (a, live) →
+      (LU.CA.alloc a).1 ∉ live) := by
+  refine ⟨fun ops hok => ?_, fun hok hrun => Util_LtsUtil_SharedList_free_lists hok hrun,
+    fun ops _ _ h => (Util_LtsUtil_CachingAllocator_history ops h).2.1⟩
+  obtain ⟨w', hrun, hinv⟩ := Util_LtsUtil_SharedCounter_history ops hok
+  obtain ⟨_, h2, h3, _⟩ := Util_LtsUtil_SharedCounter_refcount hinv
+  exact ⟨w', hrun, h2, h3⟩
+
+example : LU.SC.okAll LU.SC.Ex.exCfg [] LU.SC.Ex.exOps = true ∧ LU.SL.okAll (LU.SL.A.mk0 3) LU.SL.Ex.ops = true ∧
+    LU.CA.run LU.CA.mk [] [.alloc, .alloc, .reclaim 0, .alloc, .reclaim 1] = some (⟨[1], 2, 3⟩, [0]) := by decide
+
+/-- PARTIAL ("never reads … freed memory" through a stale cache entry: the address-keyed memo tables `lteCache` /
+`evalTransitionsCache` around the macro-state cache of the tree inclusion algorithms, where a dead object's address may be
+handed to the next object).  The deleter lambdas AS THEY ARE WRITTEN IN THE SOURCES NOW purge every key position that holds a
+macro-state address, at all three sites (regenerated table, re-checked on every run); and under that wiring, in every
+reachable state of the cache model – any history, any allocator, address reuse included – every key of the comparison memo
+consists of two LIVE addresses and every key of the evaluation memo has a live second component; when the last handle is
+gone the cache is empty.  (`Util_Cache_wiring_counterexample`: with a one-word slip in the deleter a stale answer IS returned.) -/
+theorem C20_cache_no_stale_address_partial :
+    Gen.cacheWiring.map CacheWiring.wiringOf = [.lib, .lib, .lib] ∧
+    (∀ {α : Type} [DecidableEq α] {c : CM.Cfg α} {s : CM.Sys α}, CM.Reach c s → c.wiring = .lib →
+      (∀ a b r, CM.aget s.lte.store (a, b) = some r → a ∈ CM.ids s.store ∧ b ∈ CM.ids s.store) ∧
+      (∀ k b r, CM.aget s.ev.store (k, b) = some r → b ∈ CM.ids s.store)) ∧
+    (∀ {α : Type} [DecidableEq α] {c : CM.Cfg α} {s : CM.Sys α}, CM.Reach c s → (∀ x ∈ s.slots, x = none) → s.store = []) :=
+  ⟨CacheWiring.cache_wiring_is_lib,
+    fun h hw => ⟨fun a b r hr => ⟨((Util_Cache_memo_live h hw).1 a b r hr).1, ((Util_Cache_memo_live h hw).1 a b r hr).2.1⟩,
+      fun k b r hr => ((Util_Cache_memo_live h hw).2 k b r hr).1⟩,
+    fun h hn => (Util_Cache_no_leak h hn).1⟩
+
+example : (CM.run (CM.setCfg .lib) (CM.Sys.init (List Nat) 2) CM.staleHistory).isSome = true := by decide
+
+/-- PARTIAL ("never accesses memory out of bounds", "dereferencing a past-the-end iterator"): the binary search of
+`OrdVector::insert` / `find` never reads outside `[0, size())`; `parseArguments` started with any `argc` up to the length of
+the vector never reads outside `argv`, and its `-o` loop never calls `substr` out of range; after ANY history on
+`OrderedAntichain2C` objects – in or out of the contract of `insert` – every element of the ordered set refers to a node
+that is still in the antichain (no dangling iterator is dereferenced by the comparison functor); the three transition
+iterators of the rule container: `C20_iterators_never_dereference_empty_partial` -/
+theorem C20_bounds_and_iterators_partial :
+    (∀ (v : OrdVec.Vec) (x : Nat), OrdVec.bsearch v.length v x 0 v.length ≠ .oob) ∧
+    (∀ (argv : List CliArgs.Str) (argc : Nat), argc ≤ argv.length → ∀ i, CliArgs.parseRaw argv argc 0 {} ≠ .outOfBounds i) ∧
+    (∀ (s : CliArgs.Str) (m : CliArgs.Options), CliArgs.optLoopRaw s (s.length + 1) 0 m ≠ .outOfRange) ∧
+    (∀ {κ β : Type} [DecidableEq κ] {lt : κ × β → κ × β → Bool}, AC.Ord.StrictOrd lt →
+      ∀ (ops : List (AC.Ord.Op κ β)) (m : Nat) o,
+        o ∈ (AC.Ord.run lt ⟨List.replicate m AC.Ord.init, 0⟩ ops).objs → AC.Ord.OWeak lt o) :=
+  ⟨Util_OrdVector_bsearch_in_bounds, fun argv argc h => (Util_CliArgs_parse_in_bounds argv argc h).2,
+    fun s m => (Util_CliArgs_option_loop_in_range s m).2, fun h ops m => Util_Antichain_any_history_ordered h ops m⟩
+
+example : OrdVec.bsearch 3 [1, 3, 5] 4 0 3 ≠ .oob ∧
+    CliArgs.parseRaw [CliArgs.lit "-t", CliArgs.lit "-r"] 2 0 {} = .err (CliArgs.lit "The '-r' flag needs an argument.") := by
+  decide
+
+/-- the clauses ARE violated by members of the utility classes that the automata operations never reach with such arguments –
+each observed on the real class under the sanitizers and reproduced by the model: `OrdVector::HaveEmptyIntersection` reads past
+`end()` whenever the two sets are disjoint and not both empty (nothing in libvata calls it); `SmartSet` dereferences a
+deleted cell when a new key is inserted after the last element was erased (the engine never does that);
+`SymbolicVarAsgn(size, n)` shifts an `int` by `≥ 32` for `size > 32` (the library calls it with 16) -/
+theorem C20_utility_defects_outside_the_property :
+    (∀ {v w : OrdVec.Vec}, OrdVec.Sorted v → OrdVec.Sorted w → (∀ x, OrdVec.abs v x → ¬ OrdVec.abs w x) →
+      ¬ (v = [] ∧ w = []) → OrdVec.haveEmptyIntersection v w = none) ∧
+    ((LU.SS.add (LU.SS.mk 4) 1).bind (fun s => LU.SS.remove s 1 false)).bind (fun s => LU.SS.add s 2) = none ∧
+    (∀ size n, Glue.ofNum size n = none ↔ 32 < size) :=
+  ⟨fun hv hw hd hne => Util_OrdVector_haveEmptyIntersection_defect hv hw hd hne, Util_LtsUtil_SmartSet_dangling_last.1,
+    Util_Glue_asgn_ofNum_limits.1⟩
+
+example : OrdVec.haveEmptyIntersection [1] [2] = none := by simp [OrdVec.haveEmptyIntersection]
+
 /-!
+## closed since the last refresh of this file
+
+The item "**Components without any model of their memory management**" listed the caching allocators, the intrusive
+`shared_list` / `shared_counter` and block lists of the simulation engine, the address-keyed caches of the downward inclusion
+with their invalidation, the antichain containers, the product-state counters of the BDD intersections, the finite-automata
+code and the parsers.  Most of them now have a model AS CODED (addresses, cells, free lists, reference counts where the class
+has them) with history theorems, each compared with the real class step by step:
+
+* caching allocators, `SharedCounter`, `SharedList`, `SmartSet`, `SplittingRelation` – `Vata/Properties/Util_LtsUtil.lean`
+  (`Util_LtsUtil_CachingAllocator_history`, `Util_LtsUtil_SharedCounter_refcount`, `Util_LtsUtil_SharedCounter_copy_on_write`,
+  `Util_LtsUtil_SharedList_refcount`, `Util_LtsUtil_SharedList_free_lists`, `Util_LtsUtil_SplittingRelation_invariant`,
+  `Util_LtsUtil_SplittingRelation_free_list`); here: `C20_engine_helpers_bookkeeping_partial`; the engine around them:
+  `C16_engine_invariant`, `C16_engine_terminates`;
+* `Cache`, `CachedBinaryOp` and the deleter wiring ("invalidation when a cached set dies") – `Vata/Properties/Util_Cache.lean`,
+  `CacheWiring.lean` (`Util_Cache_interning`, `Util_Cache_memo_live`, `Util_Cache_memo_sound`, `Util_Cache_index_exact`,
+  `Util_Cache_no_leak`, `cache_wiring_is_lib`); here: `C20_cache_no_stale_address_partial`;
+* the antichain containers – `Vata/Properties/Util_Antichain.lean` (`Util_Antichain_any_history_2C`,
+  `Util_Antichain_any_history_ordered`: no dangling iterator in the ordered set, in or out of the contract); `OrdVector` –
+  `Util_OrdVector_bsearch_in_bounds`, `Util_OrdVector_mutator_invariant`; here: `C20_bounds_and_iterators_partial`;
+* the product-state counters of the BDD intersections ("using an uninitialised counter", defect D10) –
+  `C20_bdd_isect_numbers_dense_partial` (`Vata/Properties/C08_Isect.lean`);
+* "dereferencing a past-the-end iterator" for the three transition iterators – `C20_iterators_never_dereference_empty_partial`
+  with its converse `C20_iterators_stuck_without_invariant_partial` (`Vata/Properties/C12_Iterators.lean`);
+* moves and the library operations that return results sharing storage with their operands – `C11_ext_invariant`,
+  `C11_ext_no_garbage` (`Vata/Properties/C11_Extended.lean`);
+* `BinaryRelation` (flat matrix with reallocation) – `Util_BinRel_get_set`, `Util_BinRel_resize`, `Util_BinRel_history`;
+  the command-line parser – `Util_CliArgs_parse_in_bounds`, `Util_CliArgs_option_loop_in_range`, `Util_CliArgs_parse_total`;
+  the word automata's start-symbol map – `C10_start_history_keys` (`GetStartSymbols` never reads past the end of the map).
+
 ## not yet proved
 
 * **The property itself.**  Memory safety and absence of undefined behaviour of the C++ are outside the reach of the
-  models: they have no addresses, no uninitialised or freed storage, no bounded or signed machine integers, no
-  iterators, no allocator.  Nothing in this file is, or could be strengthened into, a proof that the library never reads
-  uninitialised/freed memory, never goes out of bounds, never double-frees and never overflows.  The property is checked
-  by sanitizer-instrumented runs (ASan/UBSan, assertions on) over the generated workloads of all properties; that is
-  testing, with the usual limits (only executed paths, only the generated inputs).
-* **Components without any model of their memory management:** the caching allocators (`caching_allocator.hh`), the
-  intrusive `shared_list` / `shared_counter` and block lists of the simulation engine (`explicit_lts_sim.cc`), the
-  emulated call stack and the address-keyed caches of the downward inclusion (`explicit_tree_incl_down.cc`, `cache.hh`,
-  `cached_binary_op.hh`: invalidation when a cached set dies), the antichain containers of the upward inclusion, the
-  BDD-encoded automata (`bdd_*_isect.cc` with their product-state counters), the finite-automata code
-  (`explicit_finite_*`), the parsers/serializers.  For these there is not even a bookkeeping invariant: the models of the
-  inclusion, complement and BDD-table operations added for C01, C06, C07, C08, C09 are functional models (values, lists)
-  that say what is computed, not how memory is managed while computing it.
-* **Between model and code.**  Even for the modelled components (MTBDD node store, copy-on-write heap, rule container,
-  explicit products, the counter of `SanitizeAutsForInclusion`) the theorems are about the model; the agreement of model and code is tested (correspondence checks of
-  C11, C12, C17, C18, C02), not proved.  The model-level analogues ("reachable ⇒ allocated", "deleted at most once", "use
-  count = number of owners") do not cover reads of uninitialised fields, iterator invalidation or integer overflow.
+  models.  The models added since do have addresses, cells, free lists and "no defined behaviour" outcomes (`none`, `.oob`,
+  `.stuck`, `.outOfBounds`), so they can express – and the theorems above exclude, for every history inside the stated call
+  discipline – a read through a dangling pointer, a double reclaim, an index outside a vector, a stale cache answer.  They
+  still have no uninitialised storage, no bounded or signed machine integers (all numbers are `Nat`; 64-bit wrap-around of
+  counters and of reference counts is not modelled) and no real allocator; and every theorem is about a model.  Nothing in this
+  file is a proof that the library never reads uninitialised/freed memory, never goes out of bounds, never double-frees and
+  never overflows.  The property is checked by sanitizer-instrumented runs (ASan/UBSan, assertions on) over the generated
+  workloads of all properties; that is testing, with the usual limits (only executed paths, only the generated inputs).
+* **Call disciplines are hypotheses.**  The history theorems of the utility classes hold for histories INSIDE the discipline
+  the owning algorithm is supposed to keep (`SS.ok`, `SC.ok`, `SL.ok`, `SR.ok`; `lte` only on live macro-states; `insert` into
+  the ordered antichain inside its contract).  That the engine / the inclusion algorithms keep it is read off the sources and
+  exercised by the harness, not proved; there is no theorem connecting the algorithm models (values, lists) to the class
+  models (heaps).  Outside the disciplines the classes DO have memory errors, observed under the sanitizers and reproduced by
+  the models (`C20_utility_defects_outside_the_property`; also `resize` inside the capacity shows stale cells,
+  `Util_BinRel_resize`, and `TwoWayDict::Insert` outside its contract breaks the bijection silently, `Util_Glue_dict_contract_needed`).
+* **Inputs outside the property on which the library misbehaves** (all have useless states or violate a documented
+  precondition, so they do not contradict C20 as stated): `ComputeSimulation(TA_UPWARD)` on an automaton in which every state
+  owns a rule but there is no leaf rule writes behind a vector in `SimulationEngine::makeBlock`
+  (`C04_pipeline_upward_needs_leaf`); `BottomUpIndex` on a cluster that uses a symbol with two ranks writes past the end of a
+  vector (`Util_Cache_bu_index_needs_ranked`).
+* **Components still without any model of their memory management:** the emulated call stack of the non-recursive downward
+  inclusion (`explicit_tree_incl_down.cc`; modelled by recursion), the MTBDD-level code of the BDD encodings beyond the node
+  store (apply caches holding raw node pointers, C18), `explicit_finite_aut_core` (copy-on-write of the word automata), the
+  Timbuk parser / serializer as memory-touching code (the models are functions on lists of characters), destruction order of
+  cache and antichains.
+* **Between model and code.**  For all modelled components the theorems are about the model; the agreement of model and code
+  is tested (correspondence checks: every step of every history compared), not proved.
 * No arithmetic claim: state numbers are unbounded `Nat` in all models, so overflow of state counters cannot be expressed.
   `C20_sanitise_index_bounds_partial` bounds the states by the returned counter; that the counter (and `2^16` symbols, the
   `size_t` sizes of the product maps) fits the machine types is not stated.
